@@ -223,8 +223,13 @@ def library_oracle(ctx):
     from pydrobert.speech import compute, filters, config
 
     r = ctx.rng
-    n = ctx.scale(40, 600)
-    for _ in range(n):
+    n = ctx.scale(80, 800)
+    # corner configurations that every run covers (then random ones): complex banks whose lowest filter wraps below
+    # 0 Hz, and "analytic" complex banks (raised low edge) whose top filter still crosses the Nyquist frequency
+    corners = [(kind, rate, lo, hi, nf) for kind in ("gabor", "gammatone")
+               for rate, lo, hi, nf in ((8000, 0.0, 4000.0, 6), (8000, 300.0, 4000.0, 6), (11025, 200.0, 5512.5, 10),
+                                        (4000, 20.0, 2000.0, 3))]
+    for it in range(n):
         if ctx.out_of_time():
             break
         rate = r.choice([4000, 8000, 11025])
@@ -232,9 +237,12 @@ def library_oracle(ctx):
         scale = r.choice(["mel", "bark", dict(name="linear", low_hz=0.0), dict(name="octave", low_hz=30.0)])
         nf = r.choice([3, 6, 10])
         lo = r.choice([0.0, 20.0, 200.0])
+        hi = r.choice([rate / 2, rate / 2 - 100.0, rate / 4])
+        if it < len(corners):
+            kind, rate, lo, hi, nf = corners[it]
+            scale = r.choice(["mel", "bark"])
         if isinstance(scale, dict) and scale.get("name") == "octave" and lo < 30.0:
             lo = 30.0
-        hi = r.choice([rate / 2, rate / 2 - 100.0, rate / 4])
         try:
             if kind == "gabor":
                 bank = filters.GaborFilterBank(scale, num_filts=nf, low_hz=lo, high_hz=hi, sampling_rate=rate)
